@@ -397,8 +397,8 @@ class DOK(SparseArray, NDArrayOperatorsMixin):
             raise IndexError("Indices must be sequences of integer types!")
         if idxs[0].ndim != 1:
             raise IndexError("Indices are not 1d sequences!")
-        if values.ndim == 0:
-            values = np.full(idxs[0].size, values, self.dtype)
+        if values.ndim == 0 or values.shape == (1,):
+            values = np.full(idxs[0].size, values.reshape(()), self.dtype)
         elif values.ndim > 1:
             raise ValueError(f"Dimension of values ({values.ndim}) must be 0 or 1!")
         if not idxs[0].shape == values.shape:
